@@ -724,6 +724,8 @@ theorem collect_noPanic : ∀ args : List Arg, (∀ a ∈ args, ArgNP a) → NoP
 of its default-function arguments are -/
 theorem impl_noPanic (name : String) (args : List Arg) (h : ∀ a ∈ args, ArgNP a) : NoPanicRes (impl name args) := by
   unfold impl
+  split
+  · trivial
   refine NoPanicRes.bind (collect_noPanic args h) (fun o => ?_)
   cases o with
   | none => trivial
